@@ -1,6 +1,460 @@
-/- C14 - property theorems (stub: not built yet) -/
-import NotationModel.Model.C14
+/-
+C14 - A CRL cache entry is only ever absent or complete.
+Property theorems; the model is in `Model/C14.lean`, the inductive invariant and its
+preservation by every event in `Lemmas/C14Inv.lean` (space) and `Lemmas/C14Time.lean` (time).
+All theorems quantify over arbitrary event lists = every interleaving of any number of writers
+and readers over any keys, with crashes anywhere (ill-timed events are no-ops of `step`).
+-/
+import NotationModel.Lemmas.C14Time
+import NotationModel.Generated.Skeletons
+set_option linter.unusedSimpArgs false
+set_option linter.unusedVariables false
 
 namespace NotationModel.C14
+
+/-! ### the code is the protocol the state machine models (re-checked when the source changes) -/
+
+/-- `file.WriteFile`: create a temp file, write, close, rename over the destination - in this order -/
+theorem fact_write_protocol :
+    Facts.writeFileSteps = ["os.CreateTemp(tempDir,tempFileNamePrefix)", "tempFile.Write(content)",
+      "tempFile.Close()", "os.Rename(tempFile.Name(),path)"] := by decide
+
+theorem fact_write_params : Facts.writeFileParams = ["tempDir", "path", "content"] := by decide
+
+/-- `FileCache.Set` makes exactly one file-system call: `WriteFile` with the cache root as temp
+directory (same file system as the destination, so the rename is atomic) and `root/fileName(url)`
+as destination -/
+theorem fact_set_uses_root_as_tempdir :
+    Facts.crlSetCalls = ["file.WriteFile(c.root,filepath.Join(c.root,c.fileName(url)),contentBytes)"] := by decide
+
+/-- `FileCache.Get` touches the file system once: a single `os.ReadFile` of the key path -/
+theorem fact_get_single_readfile :
+    Facts.crlGetCalls = ["os.ReadFile(filepath.Join(c.root,c.fileName(url)))"] := by decide
+
+theorem fact_temp_prefix : Facts.tempFileNamePrefix.toList = tempPrefix ++ ['*'] := by decide
+
+theorem fact_key_name_is_hex_sha256 : Facts.crlFileNameCalls = ["sha256.Sum256", "hex.EncodeToString"] := by decide
+
+/-! ### the invariant holds in every reachable state -/
+
+theorem inv_runFrom (p : Prog) (evs : List Event) : ∀ s, Inv p s → InvT p s →
+    Inv p (runFrom p s evs) ∧ InvT p (runFrom p s evs) := by
+  induction evs with
+  | nil => intro s h1 h2; exact ⟨h1, h2⟩
+  | cons e es ih =>
+    intro s h1 h2
+    simp only [runFrom, List.foldl_cons]
+    exact ih _ (inv_step p s e h1) (invT_step p s e h1 h2)
+
+/-- **every schedule**: the invariant holds after any event list -/
+theorem inv_reachable (p : Prog) (evs : List Event) : Inv p (exec p evs) ∧ InvT p (exec p evs) :=
+  inv_runFrom p evs init (inv_init p) (invT_init p)
+
+/-! ### readable property theorems -/
+
+/-- **C14, absent or complete.** Under any schedule, a finished read returned a miss (`none`) or
+exactly the complete data of some writer of the key it read - never a truncated or mixed entry. -/
+theorem read_absent_or_complete (p : Prog) (evs : List Event) (r : Nat) (res : Option Bytes) (snap : Option Nat)
+    (h : (exec p evs).rst r = .finished res snap) :
+    res = none ∨ ∃ w, p.wkey w = p.rkey r ∧ res = some (p.wdata w) := by
+  cases res with
+  | none => exact Or.inl rfl
+  | some b =>
+    obtain ⟨w, _, h2, h3⟩ := (inv_reachable p evs).1.finished_ok r b snap h
+    exact Or.inr ⟨w, h2, by rw [h3]⟩
+
+/-- a read in progress has so far seen a prefix of one single complete entry of its key -/
+theorem read_in_progress_is_prefix (p : Prog) (evs : List Event) (r i : Nat) (buf : Bytes) (snap : Option Nat)
+    (h : (exec p evs).rst r = .reading i buf snap) :
+    ∃ w, p.wkey w = p.rkey r ∧ buf = (p.wdata w).take buf.length := by
+  obtain ⟨_, _, w, _, h2, _, h4⟩ := (inv_reachable p evs).1.reading_ok r i buf snap h
+  exact ⟨w, h2, h4⟩
+
+/-- **C14, key names are sealed.** Whatever inode a key name points to holds the complete bytes of a
+writer of that key whose rename has happened, and no writer in progress can write to it. -/
+theorem inv_key_sealed (p : Prog) (evs : List Event) (k i : Nat)
+    (h : (exec p evs).dir (.key k) = some i) :
+    ∃ w, p.wkey w = k ∧ (exec p evs).ino i = p.wdata w ∧ (exec p evs).wst w = .done ∧
+      ∀ w', ¬ Owns (exec p evs) w' i := by
+  obtain ⟨w, _, h2, h3, h4, h5, _⟩ := (inv_reachable p evs).1.key_sealed k i h
+  exact ⟨w, h2, h3, h4, h5⟩
+
+/-- an inode nobody owns stays unowned and keeps its bytes, whatever happens next -/
+theorem sealed_step (p : Prog) (s : Sys) (e : Event) (i : Nat) (h : Inv p s)
+    (hlt : i < s.next) (hno : ∀ w, ¬ Owns s w i) :
+    (step p s e).ino i = s.ino i ∧ i < (step p s e).next ∧ ∀ w, ¬ Owns (step p s e) w i := by
+  cases e with
+  | create w t =>
+    simp only [step]
+    split
+    · rename_i hw ht
+      refine ⟨by simp [upd]; omega, by simp; omega, ?_⟩
+      intro w' ho
+      simp only [Owns] at ho
+      by_cases hww : w' = w
+      · subst hww; simp at ho; omega
+      · exact hno w' (by simpa [Owns, upd, hww] using ho)
+    · exact ⟨rfl, hlt, hno⟩
+  | write w n =>
+    simp only [step]
+    split
+    · rename_i t j off hw
+      have hji : i ≠ j := fun e => hno w (e ▸ Or.inl ⟨t, off, hw⟩)
+      refine ⟨by simp [upd, hji], hlt, ?_⟩
+      intro w' ho
+      simp only [Owns] at ho
+      by_cases hww : w' = w
+      · subst hww; simp at ho; exact hji ho.symm
+      · exact hno w' (by simpa [Owns, upd, hww] using ho)
+    · exact ⟨rfl, hlt, hno⟩
+  | close w =>
+    simp only [step]
+    split
+    · rename_i t j off hw
+      split
+      · refine ⟨rfl, hlt, ?_⟩
+        intro w' ho
+        simp only [Owns] at ho
+        by_cases hww : w' = w
+        · subst hww; simp at ho; exact hno w' (Or.inl ⟨t, off, by rw [← ho]; exact hw⟩)
+        · exact hno w' (by simpa [Owns, upd, hww] using ho)
+      · exact ⟨rfl, hlt, hno⟩
+    · exact ⟨rfl, hlt, hno⟩
+  | rename w =>
+    simp only [step]
+    split
+    · refine ⟨rfl, hlt, ?_⟩
+      intro w' ho
+      simp only [Owns] at ho
+      by_cases hww : w' = w
+      · subst hww; simp at ho
+      · exact hno w' (by simpa [Owns, upd, hww] using ho)
+    · exact ⟨rfl, hlt, hno⟩
+  | crash w =>
+    simp only [step]
+    split
+    · exact ⟨rfl, hlt, hno⟩
+    · refine ⟨rfl, hlt, ?_⟩
+      intro w' ho
+      simp only [Owns] at ho
+      by_cases hww : w' = w
+      · subst hww; simp at ho
+      · exact hno w' (by simpa [Owns, upd, hww] using ho)
+  | ropen r =>
+    simp only [step]
+    split
+    · split <;> exact ⟨rfl, hlt, hno⟩
+    · exact ⟨rfl, hlt, hno⟩
+  | rread r n =>
+    simp only [step]
+    split
+    · split <;> exact ⟨rfl, hlt, hno⟩
+    · exact ⟨rfl, hlt, hno⟩
+
+theorem sealed_runFrom (p : Prog) (evs : List Event) (i : Nat) : ∀ s, Inv p s → i < s.next →
+    (∀ w, ¬ Owns s w i) → (runFrom p s evs).ino i = s.ino i := by
+  induction evs with
+  | nil => intro s _ _ _; rfl
+  | cons e es ih =>
+    intro s h hlt hno
+    obtain ⟨a, b, c⟩ := sealed_step p s e i h hlt hno
+    simp only [runFrom, List.foldl_cons]
+    have := ih (step p s e) (inv_step p s e h) b c
+    simp only [runFrom] at this
+    rw [this, a]
+
+/-- **C14, sealed for ever.** Once a key name points to inode `i`, the bytes of `i` never change
+again under any continuation of the schedule (a reader that opened it keeps reading the same
+complete entry, even after later renames replaced the name). -/
+theorem key_inode_never_written_again (p : Prog) (evs more : List Event) (k i : Nat)
+    (h : (exec p evs).dir (.key k) = some i) :
+    (exec p (evs ++ more)).ino i = (exec p evs).ino i := by
+  obtain ⟨w, _, _, _, _, h5, h6⟩ := (inv_reachable p evs).1.key_sealed k i h
+  have : exec p (evs ++ more) = runFrom p (exec p evs) more := by
+    simp [exec, runFrom, List.foldl_append]
+  rw [this]
+  exact sealed_runFrom p more i _ (inv_reachable p evs).1 h6 h5
+
+/-- **C14, freshness (atomic-register order).** `stamp w < openAt r` says writer `w`'s rename
+happened before reader `r` opened the entry. A finished read then returned the complete data of a
+writer `w'` of the same key whose rename is not before `w`'s - and in particular not a miss. -/
+theorem read_not_older (p : Prog) (evs : List Event) (r : Nat) (res : Option Bytes) (snap : Option Nat)
+    (h : (exec p evs).rst r = .finished res snap)
+    (w : Nat) (hw : (exec p evs).wst w = .done) (hk : p.wkey w = p.rkey r)
+    (hbefore : (exec p evs).stamp w < (exec p evs).openAt r) :
+    ∃ w', res = some (p.wdata w') ∧ p.wkey w' = p.rkey r ∧ (exec p evs).wst w' = .done ∧
+      (exec p evs).stamp w ≤ (exec p evs).stamp w' := by
+  obtain ⟨hi, ht⟩ := inv_reachable p evs
+  cases res with
+  | none =>
+    have := (ht.miss_time r snap h).2 w hw hk
+    omega
+  | some b =>
+    obtain ⟨w', h1, h2, h3⟩ := hi.finished_ok r b snap h
+    obtain ⟨f1, f2⟩ := (ht.fin_time r b snap h).2 w' h1
+    exact ⟨w', by rw [h3], h2, f1, f2 w hw hk hbefore⟩
+
+/-- **C14, crashes.** After any schedule, followed by killing any writers at whatever point they
+are, every key name is absent or holds the complete data of a writer of that key. -/
+theorem crash_leaves_absent_or_complete (p : Prog) (evs : List Event) (killed : List Nat) (k : Nat) :
+    let s := exec p (evs ++ killed.map Event.crash)
+    s.dir (.key k) = none ∨ ∃ i w, s.dir (.key k) = some i ∧ p.wkey w = k ∧ s.ino i = p.wdata w := by
+  intro s
+  cases hd : s.dir (.key k) with
+  | none => exact Or.inl rfl
+  | some i =>
+    obtain ⟨w, h2, h3, _⟩ := inv_key_sealed p _ k i hd
+    exact Or.inr ⟨i, w, rfl, h2, h3⟩
+
+/-- a crash never changes the directory or any file content: what was complete stays complete,
+the half-written temp file simply stays behind under its temp name -/
+theorem crash_touches_no_file (p : Prog) (s : Sys) (w : Nat) :
+    (step p s (.crash w)).dir = s.dir ∧ (step p s (.crash w)).ino = s.ino := by
+  simp only [step]
+  split <;> exact ⟨rfl, rfl⟩
+
+/-! ### temp names are never key names (concrete encoding) -/
+
+theorem hexDigit_ne_n : ∀ m, m < 16 → hexDigit m ≠ 'n' := by decide
+
+theorem hexName_length (d : List Nat) : (hexName d).length = 2 * d.length := by
+  induction d with
+  | nil => simp [hexName]
+  | cons b r ih =>
+    have : hexName (b :: r) = hexByte b ++ hexName r := by simp [hexName, List.flatMap_cons]
+    rw [this, List.length_append, ih]
+    simp [hexByte]; omega
+
+/-- **C14, temp files are never mistaken for entries.** For every suffix `s` (whatever
+`os.CreateTemp` substitutes for `*`) and every digest `d` (any length, in particular 32 bytes),
+the temp name "notation-"++s differs from the key name `hex(d)`: `n` is not a hex digit. -/
+theorem temp_never_key (s : List Char) (d : List Nat) : tempPrefix ++ s ≠ hexName d := by
+  cases d with
+  | nil => simp [hexName, tempPrefix]
+  | cons b r =>
+    intro h
+    have h0 : (tempPrefix ++ s).head? = (hexName (b :: r)).head? := by rw [h]
+    simp [tempPrefix, hexName, hexByte, List.flatMap_cons] at h0
+    exact hexDigit_ne_n (b / 16 % 16) (Nat.mod_lt _ (by decide)) h0.symm
+
+/-- key names are 64 characters for 32-byte digests -/
+theorem key_name_length (d : List Nat) (h : d.length = 32) : (hexName d).length = 64 := by
+  rw [hexName_length, h]
+
+
+/-! ### the executable replay and `Holds` -/
+
+theorem classify_own (i : Input) (w : Nat) :
+    classify (prog i) ((prog i).wkey w) ((prog i).wdata w) = ⟨.complete, w⟩ := by
+  have hd : ∃ l, (prog i).wdata w = w :: l := by
+    simp only [prog]
+    cases i.writers[w]? <;> simp [mkData]
+  obtain ⟨l, hl⟩ := hd
+  rw [hl]
+  simp [classify, hl]
+
+/-- what an uninterrupted `Get` observes in a state satisfying the invariant: a miss when the key
+name is absent, otherwise the complete bundle of the key's current writer -/
+theorem getObs_spec (i : Input) (s : Sys) (k : Nat) (h : Inv (prog i) s) :
+    (s.dir (.key k) = none ∧ getObs (prog i) s k = ⟨.miss, 0⟩) ∨
+    (∃ j w0, s.dir (.key k) = some j ∧ s.cur k = some w0 ∧ (prog i).wkey w0 = k ∧ s.wst w0 = .done ∧
+      getObs (prog i) s k = ⟨.complete, w0⟩) := by
+  cases hd : s.dir (.key k) with
+  | none => left; simp [getObs, hd]
+  | some j =>
+    right
+    obtain ⟨w0, h1, h2, h3, h4, _, _⟩ := h.key_sealed k j hd
+    refine ⟨j, w0, rfl, h1, h2, h4, ?_⟩
+    simp only [getObs, hd, h3]
+    rw [← h2]
+    exact classify_own i w0
+
+theorem okRead_get (i : Input) (s : Sys) (k : Nat) (h : Inv (prog i) s) :
+    okRead (prog i) k (getObs (prog i) s k) = true := by
+  rcases getObs_spec i s k h with ⟨_, e⟩ | ⟨j, w0, _, _, h2, _, e⟩
+  · simp [okRead, e]
+  · simp [okRead, e, h2]
+
+theorem freshOK_get (i : Input) (nw : Nat) (s : Sys) (k : Nat) (h : Inv (prog i) s) (ht : InvT (prog i) s) :
+    freshOK (prog i) nw s k (getObs (prog i) s k) = true := by
+  simp only [freshOK, List.all_eq_true]
+  intro w _
+  rcases getObs_spec i s k h with ⟨hn, e⟩ | ⟨j, w0, _, hc, h2, h4, e⟩
+  · by_cases hd : s.wst w = .done
+    · by_cases hk : (prog i).wkey w = k
+      · have := (ht.done_stamp w hd).2
+        rw [hk] at this
+        exact absurd hn this
+      · simp [hk]
+    · simp [isDone, hd]
+  · by_cases hd : s.wst w = .done
+    · by_cases hk : (prog i).wkey w = k
+      · have := ht.cur_latest k w0 hc w hd hk
+        simp [e, isDone, h4, h2, this]
+      · simp [hk]
+    · simp [isDone, hd]
+
+theorem all2_map_right {α β} (f : α → β → Bool) (g : α → β) : ∀ l : List α,
+    all2 f l (l.map g) = l.all (fun a => f a (g a)) := by
+  intro l
+  induction l with
+  | nil => rfl
+  | cons a r ih => simp [all2, ih]
+
+theorem all2_map_both {α β γ} (f : β → γ → Bool) (g : α → β) (h : α → γ) : ∀ l : List α,
+    all2 f (l.map g) (l.map h) = l.all (fun a => f (g a) (h a)) := by
+  intro l
+  induction l with
+  | nil => rfl
+  | cons a r ih => simp [all2, ih]
+
+theorem stepEv_inv (p : Prog) (s : Sys) (e : Ev) (h : Inv p s) (ht : InvT p s) :
+    Inv p (stepEv p s e) ∧ InvT p (stepEv p s e) := by
+  simp only [stepEv]
+  split
+  · exact ⟨inv_step p s _ h, invT_step p s _ h ht⟩
+  · exact ⟨h, ht⟩
+
+theorem getStates_inv (p : Prog) (evs : List Ev) : ∀ s, Inv p s → InvT p s →
+    ∀ ks ∈ getStates p evs s, Inv p ks.2 ∧ InvT p ks.2 := by
+  induction evs with
+  | nil => intro s _ _ ks hks; simp [getStates] at hks
+  | cons e es ih =>
+    intro s h ht ks hks
+    simp only [getStates] at hks
+    split at hks
+    · rcases List.mem_cons.1 hks with e1 | e1
+      · subst e1; exact ⟨h, ht⟩
+      · exact ih s h ht ks e1
+    · obtain ⟨a, b⟩ := stepEv_inv p s e h ht
+      exact ih _ a b ks hks
+
+theorem probeStates_inv (p : Prog) (evs : List Ev) : ∀ s, Inv p s → InvT p s →
+    ∀ x ∈ probeStates p evs s, Inv p x ∧ InvT p x := by
+  induction evs with
+  | nil => intro s _ _ x hx; simp [probeStates] at hx
+  | cons e es ih =>
+    intro s h ht x hx
+    simp only [probeStates] at hx
+    split at hx
+    · rcases List.mem_cons.1 hx with e1 | e1
+      · subst e1; exact ⟨h, ht⟩
+      · exact ih s h ht x e1
+    · obtain ⟨a, b⟩ := stepEv_inv p s e h ht
+      exact ih _ a b x hx
+
+theorem probeOK_dirObs (i : Input) (nkeys nw : Nat) (s : Sys) (h : Inv (prog i) s) (ht : InvT (prog i) s) :
+    probeOK (prog i) nkeys nw s (dirObs (prog i) nkeys nw s) = true := by
+  simp only [probeOK, dirObs, List.length_map, List.length_range, beq_self_eq_true, Bool.true_and,
+    all2_map_right, all2_map_both, Bool.and_true, Bool.and_eq_true, List.all_eq_true]
+  refine ⟨⟨?_, ?_⟩, ?_⟩
+  · intro k _; exact okRead_get i s k h
+  · intro k _; exact freshOK_get i nw s k h ht
+  · intro k _
+    rcases getObs_spec i s k h with ⟨hn, e⟩ | ⟨j, w0, hj, _, _, _, e⟩
+    · simp [hn, e]
+    · simp [hj, e]
+
+/-- **C14, the whole property of the model**: for every trace (any events, any writers, any keys)
+all clauses of `Holds` are true of the observations the model predicts. No well-formedness
+hypothesis is needed. -/
+theorem model_holds (i : Input) : Holds i (run i) = true := by
+  unfold Holds clauses run
+  by_cases hf : i.free
+  · simp [hf, Clauses.holds, all2]
+  · simp only [hf, Bool.false_eq_true, if_false, Clauses.holds_cons, Clauses.holds_nil, Bool.and_true,
+      all2_map_right, List.all_nil, Bool.and_eq_true, List.all_eq_true]
+    refine ⟨?_, ?_, ?_⟩
+    · intro ks hks
+      exact okRead_get i ks.2 ks.1 (getStates_inv _ _ _ (inv_init _) (invT_init _) ks hks).1
+    · intro ks hks
+      obtain ⟨a, b⟩ := getStates_inv _ _ _ (inv_init _) (invT_init _) ks hks
+      exact freshOK_get i _ ks.2 ks.1 a b
+    · intro x hx
+      obtain ⟨a, b⟩ := probeStates_inv _ _ _ (inv_init _) (invT_init _) x hx
+      exact probeOK_dirObs i _ _ x a b
+
+/-- the `get` of the trace replay is what a reader of the state machine finishes with when it
+opens and reads to EOF without other events in between (one `os.ReadFile`): a miss when the key
+name is absent, otherwise the whole inode -/
+theorem get_atomic (p : Prog) (s : Sys) (r n : Nat) (hr : s.rst r = .idle)
+    (hn : ∀ i, s.dir (.key (p.rkey r)) = some i → (s.ino i).length ≤ n + 1) :
+    ∃ snap, (runFrom p s [.ropen r, .rread r n, .rread r n]).rst r =
+      .finished ((s.dir (.key (p.rkey r))).map s.ino) snap := by
+  cases hd : s.dir (.key (p.rkey r)) with
+  | none =>
+    refine ⟨s.cur (p.rkey r), ?_⟩
+    simp [runFrom, step, hr, hd, upd]
+  | some i =>
+    have hlen := hn i hd
+    refine ⟨s.cur (p.rkey r), ?_⟩
+    by_cases he : s.ino i = []
+    · simp [runFrom, step, hr, hd, upd, he]
+    · have h1 : List.take (n + 1) (s.ino i) = s.ino i := List.take_of_length_le hlen
+      simp [runFrom, step, hr, hd, upd, he, h1]
+
+/-! ### non-vacuity -/
+
+def exTrace : Input :=
+  { free := false, writers := [⟨0, 1⟩, ⟨0, 1⟩], nkeys := 1,
+    events := [⟨.get, 0, 0⟩, ⟨.create, 0, 0⟩, ⟨.write, 0, 2⟩, ⟨.create, 1, 0⟩, ⟨.write, 1, 1⟩, ⟨.close, 0, 0⟩,
+               ⟨.rename, 0, 0⟩, ⟨.get, 0, 0⟩, ⟨.crash, 1, 0⟩, ⟨.probe, 0, 0⟩] }
+
+/-- a miss before the first rename, writer 0's bundle after it; writer 1 killed mid-write leaves
+one temp file and does not disturb the entry -/
+example : run exTrace =
+    { gets := [⟨.miss, 0⟩, ⟨.complete, 0⟩],
+      probes := [{ present := [true], keys := [⟨.complete, 0⟩], temps := 1, others := 0 }], seen := [] } := by
+  decide
+
+/-- a truncated / undecodable entry observed by a reader violates the property -/
+example : Holds exTrace
+    { gets := [⟨.miss, 0⟩, ⟨.corrupt, 0⟩],
+      probes := [{ present := [true], keys := [⟨.complete, 0⟩], temps := 1, others := 0 }], seen := [] } = false := by
+  decide
+
+/-- a miss after the Set returned violates freshness -/
+example : Holds exTrace
+    { gets := [⟨.miss, 0⟩, ⟨.miss, 0⟩],
+      probes := [{ present := [true], keys := [⟨.complete, 0⟩], temps := 1, others := 0 }], seen := [] } = false := by
+  decide
+
+/-- the half-written bundle of the killed writer showing up under the key violates the property -/
+example : Holds exTrace
+    { gets := [⟨.miss, 0⟩, ⟨.complete, 0⟩],
+      probes := [{ present := [true], keys := [⟨.complete, 1⟩], temps := 1, others := 0 }], seen := [] } = false := by
+  decide
+
+/-- a bundle stored for another URL is not acceptable in a free run either -/
+example : Holds { free := true, writers := [⟨0, 1⟩, ⟨1, 1⟩], nkeys := 2, events := [] }
+    { gets := [], probes := [], seen := [⟨0, .complete, 1, true⟩] } = false := by decide
+
+/-- in a free run, a miss after a Set for the URL returned is a violation -/
+example : Holds { free := true, writers := [⟨0, 1⟩, ⟨1, 1⟩], nkeys := 2, events := [] }
+    { gets := [], probes := [], seen := [⟨0, .miss, 0, true⟩] } = false := by decide
+
+example : Holds { free := true, writers := [⟨0, 1⟩, ⟨1, 1⟩], nkeys := 2, events := [] }
+    { gets := [], probes := [], seen := [⟨0, .miss, 0, false⟩, ⟨0, .complete, 0, true⟩, ⟨1, .complete, 1, true⟩] } = true := by
+  decide
+
+def exTrace2 : Input :=
+  { free := false, writers := [⟨0, 1⟩, ⟨0, 1⟩], nkeys := 1,
+    events := [⟨.create, 0, 0⟩, ⟨.write, 0, 2⟩, ⟨.close, 0, 0⟩, ⟨.rename, 0, 0⟩, ⟨.create, 1, 0⟩,
+               ⟨.write, 1, 2⟩, ⟨.close, 1, 0⟩, ⟨.rename, 1, 0⟩, ⟨.get, 0, 0⟩] }
+
+/-- an older bundle after a newer Set returned violates freshness -/
+example : Holds exTrace2 { gets := [⟨.complete, 0⟩], probes := [], seen := [] } = false := by decide
+
+example : run exTrace2 = { gets := [⟨.complete, 1⟩], probes := [], seen := [] } := by decide
+
+/-- the reader machine is not vacuous: an open before a rename and reads after it return the old
+complete entry (the pinned inode), a later open returns the new one -/
+example :
+    let p : Prog := { wkey := (fun _ => 0), wdata := (fun w => [w, 7, 7]), rkey := (fun _ => 0) }
+    let s := exec p [.create 0 0, .write 0 3, .close 0, .rename 0, .ropen 0, .rread 0 0,
+                     .create 1 1, .write 1 2, .rename 1, .write 1 5, .close 1, .rename 1,
+                     .rread 0 5, .rread 0 5, .ropen 1, .rread 1 9, .rread 1 9]
+    s.rst 0 = .finished (some [0, 7, 7]) (some 0) ∧ s.rst 1 = .finished (some [1, 7, 7]) (some 1) := by
+  decide
 
 end NotationModel.C14
